@@ -388,14 +388,19 @@ func lockstep(c config, p rProg, ref *refState, obs *observation) lsResult {
 		}
 	}
 	if len(surv) > n {
-		// Entries after the end of the reference trace: tolerated only if never executed
+		// Instructions fetched past the exit point (after ret, or after the last executed instruction) are
+		// speculative like any wrong-path work: executing them is allowed, an architectural effect is not.
+		// A store they perform is reported here; a register result that reaches the register file is seen by
+		// the final-state oracle.
 		for _, si := range surv[n:] {
-			if dyn[si].Exec != -1 {
-				res.Class = "extra-instruction"
-				res.Step = n
+			if dyn[si].Stores > 0 {
+				res.Class = "wrong-path-store"
 				res.Pc = dyn[si].Pc
-				res.Detail = fmt.Sprintf("machine executed pc=%d after the reference had terminated", dyn[si].Pc)
+				res.Detail = fmt.Sprintf("instruction pc=%d after the exit point performed a store", dyn[si].Pc)
 				return res
+			}
+			if dyn[si].Exec != -1 {
+				res.Stats.SquashedExecuted++
 			}
 		}
 	}
